@@ -184,6 +184,9 @@ def c13_stages(ctx):
         tar_sched_stage(ctx, "tarimpl-2x2-env2", "Tar.gate.env2.cfg", race_reps=0)
         tar_sched_stage(ctx, "tarimpl-4m", "Tar.gate.big.cfg", workers=2, vh_workers=4, race_reps=3)
     # every 512-byte block boundary of a fixed archive: EOF / reader error / corrupt header / cancel, 1..8 free-running openers
+    # every destination write fails once the stream has ended (several background writers fail together): Done closes, the
+    # failure is reported
+    graph_stage(ctx, "tarreq-writefail", "MC_Tar.tla", "Tar.req.wf.cfg", "tarreq", ["tar:writefail"], ["--attr", "tar:C13"], workers=2, vh_workers=8)
     graph_stage(ctx, "tarcut", "MC_Tar.tla", "Tar.cut.std.cfg", "tarcut", ["tarcut"], ["--opt", "2" if quick else "12"], workers=2, vh_workers=8)
     tar_prims_stage(ctx, 400 if quick else 6000)
     # the models: liveness under weak fairness, lock/CAS-level primitives, and the predictions
